@@ -52,6 +52,30 @@ TYPES = {
 }
 TYPE_KEYS_CLASS = ["int_cls", "dt_cls", "text_cls"]
 
+# pairs of closely related types (same base name with a different number of arguments, a collation, an array of the
+# type, synonyms): a requested change between them is still a requested change
+TYPES.update({
+    "str50": lambda: sa.String(50),
+    "str": lambda: sa.String(),
+    "num10": lambda: sa.Numeric(10),
+    "str20_coll": lambda: sa.String(20, collation="C"),
+    "int_arr": lambda: sa.ARRAY(sa.Integer()),
+    "float": lambda: sa.Float(),
+    "double": lambda: sa.Double(),
+    "decimal": lambda: sa.DECIMAL(10, 2),
+})
+TYPE_PAIRS = [("str50", "str"), ("num10", "numeric"), ("str20", "str20_coll"), ("int", "int_arr"),
+              ("float", "double"), ("decimal", "numeric"), ("str20", "str50")]
+
+
+def type_ok(dialect, key):
+    """can SQLAlchemy compile the type for the dialect at all (VARCHAR without length on mysql, ARRAY outside pg)"""
+    try:
+        type_token(dialect, key)
+        return True
+    except Exception:
+        return False
+
 
 class _DecEnum(sa.TypeDecorator):
     """a TypeDecorator whose impl owns a CHECK constraint"""
